@@ -3,6 +3,7 @@ import Ivg.Lemmas.ScaleQ
 import Ivg.Gen.Tie.RendererFields
 import Ivg.Gen.Tie.VecRasterizerFields
 import Ivg.Gen.Tie.Code.Transform
+import Ivg.Gen.Tie.Code.Paint
 import Ivg.Obligations
 /-!
 # C16 — invariances of rendering (the repository's part)
@@ -314,4 +315,7 @@ end Ivg.Props.C16
   Ivg.Gen.Tie.renderer_unabsY_code_tie,
   Ivg.Gen.Tie.renderer_absVec2_code_tie,
   Ivg.Gen.Tie.renderer_recalcTransform_code_tie,
-  Ivg.Gen.Tie.renderer_recalcTransform_code_tie_frame]
+  Ivg.Gen.Tie.renderer_recalcTransform_code_tie_frame,
+  -- regenerated code (translator): StartPath (paint choice, LOD test, gradient initialisation, Reset+MoveTo) and ClosePathEndPath (one Draw over the target rectangle, source point (0,0))
+  Ivg.Gen.Tie.closePathEndPath_code_tie,
+  Ivg.Gen.Tie.startPath_code_tie]
